@@ -2591,8 +2591,11 @@ class Region(_IRNode):
                 )
         # Handle cases where results may be created after their first use when walking
         # in lexicographic order.
+        # Only the newly created blocks are walked: `dest` may already contain other
+        # blocks, whose operations must not be touched.
         if clone_operands:
-            for old, new in zip(self.walk(), dest.walk()):
+            new_ops = (new for new_block in new_blocks for new in new_block.walk())
+            for old, new in zip(self.walk(), new_ops):
                 new.operands = tuple(
                     value_mapper.get(operand, operand) for operand in old.operands
                 )
